@@ -1,6 +1,353 @@
-(* C12 - NewMap.  Statements only. *)
-From Mxj Require Import Model.TreeOps Proofs.KVTotal.
+(* C12 - NewMap builds exactly the requested projection and leaves the source unchanged.
+   Statements only; proofs in Proofs/C12P.v, C12Q.v (pairs, content) and Proofs/C12Own.v,
+   C12OwnQ.v (ownership); vocabulary in Spec/NewMapSpec.v, NewMapBuild.v, Ownership.v, NewMapOwn.v.
 
+   [new_map pf sep mv pairs] (Model/TreeOps.v) is the function the correspondence check runs
+   against /repo on every case; it returns the Map built (so far) and the error class.
+
+   Reading of a key pair (Spec/NewMapSpec.v): [classify v] = PSkip (empty argument), PBad
+   (rejected) or PGood old new; [pair_action] = what the pair asks for: nothing, an error, or
+   one insertion (path_keys new, pack (ValuesForPath old)); [items_of] = the insertions of a
+   pair list in order; [pack] = the single value, or a list when several.
+   The denoted Map (Spec/NewMapBuild.v): [put_path] = plain nested insertion, [build] = all
+   items put one after the other; [new_paths] = the new paths of the accepted pairs;
+   [prefix_free] = no path equals or extends another.
+
+   Receiver never modified.  Gallina values are immutable, so on [value] this clause is
+   invisible.  It is stated on the ownership model: Spec/Ownership.v re-states addNewVal and
+   Spec/NewMapOwn.v the loop of NewMap on trees whose nodes carry their owner (TSrc =
+   receiver-owned, shared by reference); every Go write is logged with the owner of the written
+   container.  C12_tagged_is_model ties that model to [new_map] (same Map, same error class),
+   C12_receiver_never_written says the log never contains a write into a receiver-owned
+   container.  Independently the harness deep-compares the receiver before and after every call. *)
+From Mxj Require Import Model.TreeOps Spec.NewMapSpec Spec.NewMapBuild Spec.Ownership Spec.NewMapOwn
+  Proofs.KVTotal Proofs.C12P Proofs.C12Q Proofs.C12Own Proofs.C12OwnQ.
+
+(* ------------------------------------------------------------------ *)
+(* 0. no panic; the outcome is success or an error                    *)
+(* ------------------------------------------------------------------ *)
 Theorem C12_new_map_no_panic : forall pf sep mv pairs, snd (new_map pf sep mv pairs) <> Panic.
 Proof. exact new_map_no_panic. Qed.
 Print Assumptions C12_new_map_no_panic.
+
+Theorem C12_new_map_ok_or_error : forall pf sep mv pairs,
+  snd (new_map pf sep mv pairs) = Ok tt \/ exists e, snd (new_map pf sep mv pairs) = Err e.
+Proof. exact new_map_ok_or_error. Qed.
+Print Assumptions C12_new_map_ok_or_error.
+
+(* ------------------------------------------------------------------ *)
+(* 1. one key pair: the code is the declarative reading               *)
+(* ------------------------------------------------------------------ *)
+(* the body of the loop = read the pair, then (at most) one addNewVal *)
+Theorem C12_pair_spec : forall pf sep mv n v,
+  new_map_pair pf sep mv n v =
+  match pair_action pf sep mv v with
+  | Ok None => Ok n
+  | Ok (Some (p, x)) => Ok (add_new_val p x n)
+  | Err e => Err e
+  | Panic => Panic
+  end.
+Proof. exact new_map_pair_spec. Qed.
+Print Assumptions C12_pair_spec.
+
+(* classification on the explicit forms of an argument: "old:new", "key", more than one ':' *)
+Theorem C12_classify_pair : forall o nw,
+  mem_ascii colon o = false -> mem_ascii colon nw = false ->
+  classify (o ++ colon :: nw) = good_class o nw.
+Proof. exact classify_pair. Qed.
+Print Assumptions C12_classify_pair.
+
+Theorem C12_classify_single : forall k,
+  k <> [] -> mem_ascii colon k = false -> classify k = good_class k k.
+Proof. exact classify_single. Qed.
+Print Assumptions C12_classify_single.
+
+Theorem C12_classify_too_many : forall v, 2 <= count_char colon v -> classify v = PBad.
+Proof. exact classify_too_many. Qed.
+Print Assumptions C12_classify_too_many.
+
+(* these forms are all there is: a non-empty argument with at most one ':' is "key" or "old:new" *)
+Theorem C12_pair_forms : forall v,
+  v <> [] -> count_char colon v <= 1 ->
+  (mem_ascii colon v = false) \/
+  (exists o nw, v = o ++ colon :: nw /\ mem_ascii colon o = false /\ mem_ascii colon nw = false).
+Proof. exact pair_forms. Qed.
+Print Assumptions C12_pair_forms.
+
+(* what an accepted pair looks like: both parts non-empty, new part without '*' and '[' *)
+Theorem C12_classify_good : forall v o nw,
+  classify v = PGood o nw ->
+  o <> [] /\ nw <> [] /\ mem_ascii "*"%char nw = false /\ mem_ascii lbr nw = false /\
+  o = pair_old v /\ nw = pair_new v /\ count_char colon v <= 1.
+Proof. exact classify_good. Qed.
+Print Assumptions C12_classify_good.
+
+(* ------------------------------------------------------------------ *)
+(* 2. malformed pairs are rejected with an error                      *)
+(* ------------------------------------------------------------------ *)
+(* one malformed pair anywhere in the list makes NewMap return an error *)
+Theorem C12_rejects_malformed : forall pf sep mv pairs,
+  Exists (fun v => classify v = PBad) pairs -> exists e, snd (new_map pf sep mv pairs) = Err e.
+Proof. exact new_map_rejects. Qed.
+Print Assumptions C12_rejects_malformed.
+
+(* the malformed shapes, on explicit strings: "a:b:c", "old:ne*w" / "old:n[0]", "k*", ":new" / "old:" *)
+Theorem C12_pair_too_many_colons : forall pf sep mv n v,
+  2 <= count_char colon v -> new_map_pair pf sep mv n v = Err EOther.
+Proof. exact pair_too_many_colons. Qed.
+Print Assumptions C12_pair_too_many_colons.
+
+Theorem C12_pair_new_wild : forall pf sep mv n o nw,
+  mem_ascii colon o = false -> mem_ascii colon nw = false ->
+  mem_ascii "*"%char nw = true \/ mem_ascii lbr nw = true ->
+  new_map_pair pf sep mv n (o ++ colon :: nw) = Err EOther.
+Proof. exact pair_new_wild. Qed.
+Print Assumptions C12_pair_new_wild.
+
+Theorem C12_pair_single_wild : forall pf sep mv n k,
+  k <> [] -> mem_ascii colon k = false ->
+  mem_ascii "*"%char k = true \/ mem_ascii lbr k = true ->
+  new_map_pair pf sep mv n k = Err EOther.
+Proof. exact pair_single_wild. Qed.
+Print Assumptions C12_pair_single_wild.
+
+Theorem C12_pair_empty_part : forall pf sep mv n o nw,
+  mem_ascii colon o = false -> mem_ascii colon nw = false ->
+  o = [] \/ nw = [] ->
+  new_map_pair pf sep mv n (o ++ colon :: nw) = Err EOther.
+Proof. exact pair_empty_part. Qed.
+Print Assumptions C12_pair_empty_part.
+
+(* an old path ValuesForPath itself rejects is reported as an error too *)
+Theorem C12_rejects_bad_old_path : forall pf sep mv pairs v o nw e,
+  In v pairs -> classify v = PGood o nw -> values_for_path pf sep mv o [] = Err e ->
+  exists e', snd (new_map pf sep mv pairs) = Err e'.
+Proof. exact new_map_bad_old_path. Qed.
+Print Assumptions C12_rejects_bad_old_path.
+
+(* with the error, the Map built from the pairs before the offending one is returned (as the Go code does) *)
+Theorem C12_error_returns_partial : forall pf sep mv p1 v p2 e,
+  snd (new_map pf sep mv p1) = Ok tt -> pair_action pf sep mv v = Err e ->
+  new_map pf sep mv (p1 ++ v :: p2) = (fst (new_map pf sep mv p1), Err e).
+Proof. exact new_map_error_partial. Qed.
+Print Assumptions C12_error_returns_partial.
+
+(* success exactly when every argument is skipped or accepted with a readable old path *)
+Theorem C12_status : forall pf sep mv pairs,
+  snd (new_map pf sep mv pairs) = Ok tt <->
+  Forall (fun v => exists a, pair_action pf sep mv v = Ok a) pairs.
+Proof. exact new_map_status. Qed.
+Print Assumptions C12_status.
+
+(* ------------------------------------------------------------------ *)
+(* 3. old paths that yield nothing (and empty arguments) are skipped  *)
+(* ------------------------------------------------------------------ *)
+Theorem C12_pair_no_value_skipped : forall pf sep mv n v o nw,
+  classify v = PGood o nw -> values_for_path pf sep mv o [] = Ok [] ->
+  new_map_pair pf sep mv n v = Ok n.
+Proof. exact pair_no_value_skipped. Qed.
+Print Assumptions C12_pair_no_value_skipped.
+
+(* such an argument can be deleted from the list, wherever it stands: same Map, same error class *)
+Theorem C12_skips : forall pf sep mv p1 v p2,
+  fruitless pf sep mv v -> new_map pf sep mv (p1 ++ v :: p2) = new_map pf sep mv (p1 ++ p2).
+Proof. exact new_map_skips. Qed.
+Print Assumptions C12_skips.
+
+(* an accepted pair with values inserts the packed values at the new path *)
+Theorem C12_pair_inserts : forall pf sep mv n v o nw vs,
+  classify v = PGood o nw -> values_for_path pf sep mv o [] = Ok vs -> vs <> [] ->
+  new_map_pair pf sep mv n v = Ok (add_new_val (path_keys nw) (pack vs) n).
+Proof. exact pair_inserts. Qed.
+Print Assumptions C12_pair_inserts.
+
+(* ------------------------------------------------------------------ *)
+(* 4. the loop: NewMap = the insertions of the items, in order        *)
+(* ------------------------------------------------------------------ *)
+Theorem C12_new_map_is_insert_all : forall pf sep mv pairs n,
+  snd (new_map_pairs pf sep mv n pairs) = Ok tt ->
+  fst (new_map_pairs pf sep mv n pairs) = insert_all (items_of pf sep mv pairs) n.
+Proof. exact new_map_pairs_ok. Qed.
+Print Assumptions C12_new_map_is_insert_all.
+
+(* the items: one per accepted pair whose old path yields something - the new path, and the
+   values ValuesForPath(old) yields on the receiver (the single value, or a list when several) *)
+Theorem C12_items : forall pf sep mv pairs p x,
+  In (p, x) (items_of pf sep mv pairs) <->
+  exists v o nw vs, In v pairs /\ classify v = PGood o nw /\
+                    values_for_path pf sep mv o [] = Ok vs /\ vs <> [] /\
+                    p = path_keys nw /\ x = pack vs.
+Proof. exact items_of_in. Qed.
+Print Assumptions C12_items.
+
+(* ------------------------------------------------------------------ *)
+(* 5. content, when no new path equals or extends another             *)
+(* ------------------------------------------------------------------ *)
+(* at a place the walk finds free, addNewVal is the plain nested insertion *)
+Theorem C12_add_new_val_free : forall p x n, free_at p n -> add_new_val p x n = put_path p x n.
+Proof. exact add_new_val_free. Qed.
+Print Assumptions C12_add_new_val_free.
+
+(* newmap_content: the Map returned is exactly the Map the items denote *)
+Theorem C12_newmap_content : forall pf sep mv pairs,
+  snd (new_map pf sep mv pairs) = Ok tt ->
+  prefix_free (new_paths pairs) ->
+  fst (new_map pf sep mv pairs) = build (items_of pf sep mv pairs).
+Proof. exact newmap_content_pairs. Qed.
+Print Assumptions C12_newmap_content.
+
+(* ... already when the new paths of the pairs that yield something are prefix-free *)
+Theorem C12_newmap_content_items : forall pf sep mv pairs,
+  snd (new_map pf sep mv pairs) = Ok tt ->
+  prefix_free (map fst (items_of pf sep mv pairs)) ->
+  fst (new_map pf sep mv pairs) = build (items_of pf sep mv pairs).
+Proof. exact newmap_content. Qed.
+Print Assumptions C12_newmap_content_items.
+
+(* "contains at each new path exactly the values ValuesForPath(old) yields": every item is found
+   at its path, and below it what the value holds *)
+Theorem C12_newmap_has : forall pf sep mv pairs p x r,
+  snd (new_map pf sep mv pairs) = Ok tt ->
+  prefix_free (map fst (items_of pf sep mv pairs)) ->
+  In (p, x) (items_of pf sep mv pairs) ->
+  get_keys (p ++ r) (fst (new_map pf sep mv pairs)) = get_keys_v r x.
+Proof. exact newmap_has. Qed.
+Print Assumptions C12_newmap_has.
+
+(* "contains nothing else": whatever a non-empty key list finds in the returned Map is a map on
+   the way to an item, or (part of) an item's value *)
+Theorem C12_newmap_only : forall pf sep mv pairs qs v,
+  snd (new_map pf sep mv pairs) = Ok tt ->
+  prefix_free (map fst (items_of pf sep mv pairs)) ->
+  qs <> [] -> get_keys qs (fst (new_map pf sep mv pairs)) = Some v ->
+  exists p x, In (p, x) (items_of pf sep mv pairs) /\
+    ((proper_prefix qs p /\ is_map v = true) \/ (exists r, qs = p ++ r /\ get_keys_v r x = Some v)).
+Proof. exact newmap_only. Qed.
+Print Assumptions C12_newmap_only.
+
+(* the side condition is decidable *)
+Theorem C12_prefix_freeb_spec : forall ps, prefix_freeb ps = true <-> prefix_free ps.
+Proof. exact prefix_freeb_spec. Qed.
+Print Assumptions C12_prefix_freeb_spec.
+
+(* ------------------------------------------------------------------ *)
+(* 6. the receiver is never modified, whatever the pairs              *)
+(* ------------------------------------------------------------------ *)
+(* the owner-tagged addNewVal is the executable addNewVal with owners attached ... *)
+Theorem C12_tagged_walk_is_model : forall path v n,
+  erase_entries (fst (add_new_val_t path v n)) = add_new_val path (erase v) (erase_entries n).
+Proof. exact add_new_val_t_erase. Qed.
+Print Assumptions C12_tagged_walk_is_model.
+
+(* ... and the owner-tagged NewMap is [new_map] with owners attached: same Map, same error class *)
+Theorem C12_tagged_is_model : forall pf sep mv pairs,
+  erase_entries (nm_map (new_map_t pf sep add_new_val_t mv pairs)) = fst (new_map pf sep mv pairs) /\
+  nm_status (new_map_t pf sep add_new_val_t mv pairs) = snd (new_map pf sep mv pairs).
+Proof. exact new_map_t_erase. Qed.
+Print Assumptions C12_tagged_is_model.
+
+(* one insertion: whatever the path, the value and the Map built so far, no write goes into a
+   container the receiver owns *)
+Theorem C12_add_new_val_never_writes_receiver : forall path v n,
+  writes_to_src (snd (add_new_val_t path v n)) = [].
+Proof. exact add_new_val_t_no_src_writes. Qed.
+Print Assumptions C12_add_new_val_never_writes_receiver.
+
+(* newmap_source_untouched: every receiver, EVERY list of key pairs (overlapping new paths,
+   malformed pairs, anything) *)
+Theorem C12_receiver_never_written : forall pf sep mv pairs,
+  writes_to_src (nm_log (new_map_t pf sep add_new_val_t mv pairs)) = [].
+Proof. exact new_map_t_no_src_writes. Qed.
+Print Assumptions C12_receiver_never_written.
+
+(* the statement is not vacuous: the pinned code (no copies) is the same function on values ... *)
+Theorem C12_pinned_tagged_is_model : forall pf sep mv pairs,
+  erase_entries (nm_map (new_map_t pf sep add_new_val_t_nocopy mv pairs)) = fst (new_map pf sep mv pairs) /\
+  nm_status (new_map_t pf sep add_new_val_t_nocopy mv pairs) = snd (new_map pf sep mv pairs).
+Proof. exact new_map_t_nocopy_erase. Qed.
+Print Assumptions C12_pinned_tagged_is_model.
+
+(* ... but NewMap("a:x", "c:x.d") with a map at a writes d into the receiver's a *)
+Theorem C12_pinned_writes_receiver :
+  writes_to_src (nm_log (new_map_t (fun _ => None) (s ":") add_new_val_t_nocopy ex_recv ex_pairs))
+    = [WSet (s "d") true] /\
+  writes_to_src (nm_log (new_map_t (fun _ => None) (s ":") add_new_val_t ex_recv ex_pairs)) = [] /\
+  nm_status (new_map_t (fun _ => None) (s ":") add_new_val_t_nocopy ex_recv ex_pairs) = Ok tt.
+Proof. exact new_map_t_nocopy_writes_src. Qed.
+Print Assumptions C12_pinned_writes_receiver.
+
+Theorem C12_pinned_walk_writes_receiver :
+  exists path1 v1 path2 v2,
+    let n1 := fst (add_new_val_t_nocopy path1 v1 []) in
+    writes_to_src (snd (add_new_val_t_nocopy path1 v1 [])) = [] /\
+    writes_to_src (snd (add_new_val_t_nocopy path2 v2 n1)) <> [] /\
+    writes_to_src (snd (add_new_val_t path2 v2 (fst (add_new_val_t path1 v1 [])))) = [].
+Proof. exact add_new_val_t_nocopy_writes_src. Qed.
+Print Assumptions C12_pinned_walk_writes_receiver.
+
+(* ------------------------------------------------------------------ *)
+(* non-vacuity                                                        *)
+(* ------------------------------------------------------------------ *)
+Local Open Scope string_scope.
+Local Open Scope list_scope.
+Definition nopf : str -> option flt := fun _ => None.
+Definition ex12 : value :=
+  VMap [(s"a", VMap [(s"b", VInt 1); (s"c", VMap [(s"d", VStr (s"x"))])]);
+        (s"l", VList [VMap [(s"k", VInt 1)]; VMap [(s"k", VInt 2)]; VInt 3]);
+        (s"f", VInt 7)].
+(* plain, wildcard and indexed old paths; a missing old path; an empty argument; "key" shorthand; a trailing dot *)
+Definition ex12_pairs : list str :=
+  [s"a.c:p.q"; s"l.k:p.r"; s"l[2]:u.v.w"; s"zz:t"; s""; s"f"; s"a.*:y."].
+
+(* content: the hypotheses of C12_newmap_content hold, and the Map built is the Map denoted *)
+Example C12_ex_content :
+  snd (new_map nopf (s":") ex12 ex12_pairs) = Ok tt /\
+  new_paths ex12_pairs = [[s"p"; s"q"]; [s"p"; s"r"]; [s"u"; s"v"; s"w"]; [s"t"]; [s"f"]; [s"y"]] /\
+  prefix_freeb (new_paths ex12_pairs) = true /\
+  items_of nopf (s":") ex12 ex12_pairs =
+    [([s"p"; s"q"], VMap [(s"d", VStr (s"x"))]);
+     ([s"p"; s"r"], VList [VInt 1; VInt 2]);
+     ([s"u"; s"v"; s"w"], VInt 3);
+     ([s"f"], VInt 7);
+     ([s"y"], VList [VInt 1; VMap [(s"d", VStr (s"x"))]])] /\
+  fst (new_map nopf (s":") ex12 ex12_pairs) =
+    [(s"p", VMap [(s"q", VMap [(s"d", VStr (s"x"))]); (s"r", VList [VInt 1; VInt 2])]);
+     (s"u", VMap [(s"v", VMap [(s"w", VInt 3)])]);
+     (s"f", VInt 7);
+     (s"y", VList [VInt 1; VMap [(s"d", VStr (s"x"))]])] /\
+  build (items_of nopf (s":") ex12 ex12_pairs) = fst (new_map nopf (s":") ex12 ex12_pairs).
+Proof. vm_compute. repeat split. Qed.
+
+(* skipped arguments: "zz:t" (old path yields nothing) and "" are fruitless *)
+Example C12_ex_skips :
+  fruitless nopf (s":") ex12 (s"zz:t") /\ fruitless nopf (s":") ex12 (s"") /\
+  new_map nopf (s":") ex12 [s"a.b:x"; s"zz:t"; s""; s"f:y"] = new_map nopf (s":") ex12 [s"a.b:x"; s"f:y"].
+Proof.
+  split; [right; exists (s"zz"), (s"t"); split; vm_compute; reflexivity|].
+  split; [left; reflexivity|vm_compute; reflexivity].
+Qed.
+
+(* malformed pairs: each is classified PBad and makes NewMap fail; so does an unreadable old path *)
+Example C12_ex_rejects :
+  map classify [s"a:b:c"; s"a:"; s":b"; s"a:b*"; s"a:b[0]"; s"x*y"] = [PBad; PBad; PBad; PBad; PBad; PBad] /\
+  snd (new_map nopf (s":") ex12 [s"f:x"; s"a:b:c"]) = Err EOther /\
+  snd (new_map nopf (s":") ex12 [s"a:"]) = Err EOther /\
+  snd (new_map nopf (s":") ex12 [s":b"]) = Err EOther /\
+  snd (new_map nopf (s":") ex12 [s"a:b*"]) = Err EOther /\
+  snd (new_map nopf (s":") ex12 [s"a:b[0]"]) = Err EOther /\
+  classify (s"l[x]:q") = PGood (s"l[x]") (s"q") /\
+  values_for_path nopf (s":") ex12 (s"l[x]") [] = Err EOther /\
+  snd (new_map nopf (s":") ex12 [s"l[x]:q"]) = Err EOther.
+Proof. vm_compute. repeat split. Qed.
+
+(* overlapping new paths (no content claim): the tagged NewMap shares the receiver's map a by
+   reference (TSrc), copies it before d is written into it, and logs no receiver write *)
+Example C12_ex_overlap :
+  prefix_freeb (new_paths ex_pairs) = false /\
+  fst (new_map nopf (s":") ex_recv ex_pairs) = [(s"x", VMap [(s"b", VInt 1); (s"d", VInt 2)])] /\
+  nm_map (new_map_t nopf (s":") add_new_val_t ex_recv [s"a:x"]) = [(s"x", TSrc (VMap [(s"b", VInt 1)]))] /\
+  nm_map (new_map_t nopf (s":") add_new_val_t ex_recv ex_pairs) =
+    [(s"x", TMap [(s"b", TSrc (VInt 1)); (s"d", TSrc (VInt 2))])] /\
+  nm_log (new_map_t nopf (s":") add_new_val_t ex_recv ex_pairs) =
+    [WSet (s"x") false; WSet (s"x") false; WSet (s"d") false].
+Proof. vm_compute. repeat split. Qed.
